@@ -17,7 +17,7 @@ use std::io::Cursor;
 
 pub const LEVEL: &str = "fault_enumeration";
 pub const RULE_C05: &str = "faults injected into an otherwise conforming server conversation during connection setup: for every scalar field of every server message (connection confirm, connect-response incl. GCC blocks, attach-user confirm, channel-join confirms, licence) every value of 8-bit fields and the boundary values of 16/32-bit fields (field-sweep, enumerated), truncation at every byte, trailing garbage, xor corruption of 1..8 bytes and pairs of such faults (generated); plus every byte string of length <= 2 (3 thorough) at the pure parser entries gcc::read_conference_create_response, license::client_connect, per::read_* and as X.224 confirm payload. Oracle: each call returns Ok or Err: no panic, no more than 64 reads on a finished stream, no single allocation > 1 MiB + 64 n and no total > 16 MiB + 4096 n for n server bytes. Non-trivial = the faulty message differs from the conforming one and the client consumed it; distinct by hash of the case.";
-pub const RULE_C06: &str = "the client is driven by a conforming prefix into each of its six activation states, then reads one hostile frame and afterwards one valid frame. Hostile frames: every scalar field of every kind of server PDU (demand-active with capability sets, deactivate-all, synchronize, control, font map, set-error-info, unknown data PDU, fast-path bitmap / pointer / synchronize / unknown updates) set to every 8-bit value / the 16- and 32-bit boundary values (field-sweep, enumerated per state), truncations, extensions, xor corruption, double faults and free byte strings as MCS payload / fast-path payload (generated), all byte strings of length <= 2 at the share-PDU and fast-path parser entries (enumerated). Oracle: read returns Ok or Err: no panic, no spin, allocation bounds as for C05. Non-trivial = hostile frame differs from the conforming one; distinct by hash of the case.";
+pub const RULE_C06: &str = "the client is driven by a conforming prefix into each of its six activation states, then reads one hostile frame and afterwards one valid frame. Hostile frames: every scalar field of every kind of server PDU (demand-active with capability sets, deactivate-all, synchronize, control, font map, set-error-info, unknown data PDU, fast-path bitmap / pointer / synchronize / unknown updates) set to every 8-bit value / the 16- and 32-bit boundary values (field-sweep, enumerated per state), truncations, extensions, xor corruption, double faults and free byte strings as MCS payload / fast-path payload (generated), all byte strings of length <= 2 at the share-PDU and fast-path parser entries (enumerated); every pair and triple of slow-path PDUs batched into one MCS frame in every state, and generated batches with faults; every 16-bit value in every word of every capability set of the sample demand-active (and of zeroed bodies) directly at Capability::from_capability_set, plus generated capability sets. Oracle: read returns Ok or Err: no panic, no spin, allocation bounds as for C05. Non-trivial = hostile frame differs from the conforming one; distinct by hash of the case.";
 
 pub const B16V: [u32; 24] = [0, 1, 2, 3, 4, 5, 6, 7, 8, 0x7F, 0x80, 0xFF, 0x100, 0x3FF, 0x400, 0x7FFF, 0x8000, 0xFBFF, 0xFC16, 0xFC17, 0xFFFC, 0xFFFD, 0xFFFE, 0xFFFF];
 pub const B32V: [u32; 20] = [0, 1, 2, 3, 4, 6, 7, 8, 0xFF, 0x100, 0xFFFF, 0x1_0000, 0x7FFF_FFFF, 0x8000_0000, 0x8000_0001, 0xFFFF_FFFB, 0xFFFF_FFFC, 0xFFFF_FFFD, 0xFFFF_FFFE, 0xFFFF_FFFF];
@@ -398,6 +398,28 @@ pub enum PduKind {
     RawFastPath(Vec<u8>),
     /// free bytes as a whole frame
     RawFrame(Vec<u8>),
+    /// several slow-path share PDUs in one MCS send-data-indication
+    Batch(Vec<PduKind>),
+}
+
+/// the share PDU of a slow-path kind (None for fast-path and raw-frame kinds)
+pub fn share_pdu(kind: &PduKind, share: u32) -> Option<Built> {
+    let su = 1002u16;
+    Some(match kind {
+        PduKind::DemandActive => wire::demand_active(&DemandActive { share_id: share ^ 0x55, source: b"RDP\0".to_vec(), caps: wire::sample_server_caps(), session_id: 7 }, su),
+        PduKind::DeactivateAll => wire::deactivate_all(share, su),
+        PduKind::Synchronize => wire::synchronize(share, su, 1004),
+        PduKind::Control => wire::control(share, su, 4, 0, 0),
+        PduKind::FontMap => wire::font_map(share, su),
+        PduKind::SetErrorInfo => wire::set_error_info(share, su, 5),
+        PduKind::UnknownData => wire::other_data_pdu(share, su, 0x26, &[1, 2, 3, 4, 5, 6]),
+        PduKind::RawShare(b) => {
+            let mut x = Built::new();
+            x.blob("raw", b);
+            x
+        }
+        _ => return None,
+    })
 }
 
 #[derive(Serialize, Deserialize, Hash, Clone, Debug)]
@@ -448,6 +470,15 @@ pub fn base_frame(kind: &PduKind, share: u32) -> Built {
             x.blob("raw", b);
             x
         }
+        PduKind::Batch(kinds) => {
+            let mut all = Built::new();
+            for (i, k) in kinds.iter().enumerate() {
+                if let Some(p) = share_pdu(k, share) {
+                    all.nest(&format!("pdu{}", i), &p);
+                }
+            }
+            wrap(&all)
+        }
     }
 }
 
@@ -496,7 +527,10 @@ pub fn run06(c: &Case06) -> Outcome {
             bytes = apply_fault(&b2, k2).0;
         }
     }
-    let differs = bytes != base.bytes || matches!(c.kind, PduKind::RawShare(_) | PduKind::RawFastPath(_) | PduKind::RawFrame(_));
+    let differs = bytes != base.bytes || matches!(c.kind, PduKind::RawShare(_) | PduKind::RawFastPath(_) | PduKind::RawFrame(_) | PduKind::Batch(_));
+    if matches!(c.kind, PduKind::Batch(_)) {
+        out.label("batch");
+    }
     out.nontrivial(differs);
     let before = h.borrow().delivered;
     h.borrow_mut().push(&bytes);
@@ -556,9 +590,24 @@ pub fn decode06(s: &mut Src) -> Case06 {
             let n = s.below(24);
             PduKind::RawFrame(s.bytes(n))
         }
+        3 | 4 => {
+            let n = 2 + s.below(4);
+            PduKind::Batch(
+                (0..n)
+                    .map(|_| {
+                        if s.chance(32) {
+                            let l = s.below(12);
+                            PduKind::RawShare(s.bytes(l))
+                        } else {
+                            s.pick(&KINDS[..7])
+                        }
+                    })
+                    .collect(),
+            )
+        }
         _ => s.pick(&KINDS),
     };
-    let fault = if matches!(kind, PduKind::RawShare(_) | PduKind::RawFastPath(_) | PduKind::RawFrame(_)) && s.bool() { None } else { Some(gen_fault_kind(s)) };
+    let fault = if matches!(kind, PduKind::RawShare(_) | PduKind::RawFastPath(_) | PduKind::RawFrame(_) | PduKind::Batch(_)) && s.bool() { None } else { Some(gen_fault_kind(s)) };
     let fault2 = if fault.is_some() && s.chance(64) { Some(gen_fault_kind(s)) } else { None };
     Case06 { state, kind, fault, fault2 }
 }
@@ -619,12 +668,115 @@ fn short_strings06(part: usize, parts: usize) -> impl Iterator<Item = Case06> {
     })
 }
 
+/// every pair and triple of slow-path PDUs batched into one frame, unfaulted, in every state
+fn batches06() -> Vec<Case06> {
+    let slow = &KINDS[..7];
+    let mut v = Vec::new();
+    for st in 0..6u8 {
+        for a in slow {
+            for b in slow {
+                v.push(Case06 { state: st, kind: PduKind::Batch(vec![a.clone(), b.clone()]), fault: None, fault2: None });
+                for c in slow {
+                    v.push(Case06 { state: st, kind: PduKind::Batch(vec![a.clone(), b.clone(), c.clone()]), fault: None, fault2: None });
+                }
+            }
+        }
+    }
+    v
+}
+
+/// one capability set handed to the capability parser directly: type, length, body
+#[derive(Serialize, Deserialize, Hash, Clone, Debug)]
+pub struct CapCase {
+    pub cap_type: u16,
+    pub length: u16,
+    pub body: Vec<u8>,
+}
+
+pub fn run_cap(c: &CapCase) -> Outcome {
+    use rdp::core::capability::{capability_set, Capability};
+    use rdp::model::data::Message;
+    let mut out = Outcome::new();
+    out.nontrivial(true);
+    let mut bytes = Vec::new();
+    bytes.extend_from_slice(&c.cap_type.to_le_bytes());
+    bytes.extend_from_slice(&c.length.to_le_bytes());
+    bytes.extend_from_slice(&c.body);
+    let n = bytes.len();
+    let (r, st) = call(move || {
+        let mut cs = capability_set(None);
+        cs.read(&mut Cursor::new(bytes))?;
+        Capability::from_capability_set(&cs).map(|_| ())
+    });
+    match r {
+        Res::Panic(p) => {
+            fail_panic(&mut out, "Capability::from_capability_set", &p);
+            return out;
+        }
+        Res::Ok(()) => {
+            out.label("ok");
+        }
+        Res::Err(_) => {
+            out.label("err");
+        }
+    }
+    finish(&mut out, "Capability::from_capability_set", &st, n, None);
+    out
+}
+
+/// every 16-bit value in every word of every capability set of the sample demand-active, and of an
+/// all-zero body of every capability type 0..=31 at its canonical length
+fn cap_words(part: usize, parts: usize) -> impl Iterator<Item = CapCase> {
+    let mut bases: Vec<(u16, Vec<u8>)> = wire::sample_server_caps();
+    let known: Vec<(u16, usize)> = bases.iter().map(|(t, b)| (*t, b.len())).collect();
+    for (t, l) in known {
+        bases.push((t, vec![0u8; l]));
+    }
+    let mut slots = Vec::new();
+    for (bi, (_, body)) in bases.iter().enumerate() {
+        for w in 0..body.len() / 2 {
+            slots.push((bi, w));
+        }
+    }
+    slots.into_iter().enumerate().filter(move |(i, _)| i % parts == part).flat_map(move |(_, (bi, w))| {
+        let (t, body) = bases[bi].clone();
+        (0..=0xFFFFu32).map(move |v| {
+            let mut b = body.clone();
+            b[2 * w] = v as u8;
+            b[2 * w + 1] = (v >> 8) as u8;
+            CapCase { cap_type: t, length: (b.len() + 4) as u16, body: b }
+        })
+    })
+}
+
+pub fn decode_cap(s: &mut Src) -> CapCase {
+    let caps = wire::sample_server_caps();
+    let (t, mut body) = if s.chance(200) { s.pick(&caps) } else { (s.b16() as u16, Vec::new()) };
+    if s.chance(64) {
+        let n = s.below(120);
+        body = s.bytes(n);
+    }
+    for _ in 0..s.below(4) {
+        if !body.is_empty() {
+            let i = s.below(body.len());
+            body[i] = s.u8();
+        }
+    }
+    let length = if s.chance(200) { (body.len() + 4) as u16 } else { s.b16() as u16 };
+    let t = if s.chance(32) { s.b16() as u16 } else { t };
+    CapCase { cap_type: t, length, body }
+}
+
 pub fn check06(rep: &Report) {
     rep.assume("error kinds are never asserted; only Ok/Err versus panic / spin / disproportionate allocation");
     let tier = rep.tier;
     rep.enumerate("field-sweep", true, move |p, n| sweep06(tier, p, n), run06);
     rep.enumerate("short-strings", true, short_strings06, run06);
+    rep.list("batched-frames", batches06(), run06);
+    rep.enumerate("capability-words", true, cap_words, run_cap);
+    rep.random("capability-sets", rep.tier.n(200_000, 4_000_000), 160, decode_cap, run_cap);
     rep.random("faults", rep.tier.n(100_000, 6_000_000), 120, decode06, run06);
+    rep.require("faults", "batch", 3000);
     for st in ["state0-demand", "state1-sync", "state2-coop", "state3-granted", "state4-fontmap", "state5-active"] {
         rep.require("faults", st, 5000);
     }
